@@ -84,14 +84,24 @@ def main():
     replay_records = []
     if to_replay:
         gmap = {r["_group"].name: r["_group"] for r in results}
-        for h, row in to_replay:
-            g = gmap[row["group"]]
-            rec = replay_failure(pid, spec, mdir, g, h, row, tier_cfgs, skip_native=a.no_replay)
+        # stage 1 (parallel): counterexample extraction by the solver; stage 2: one native playback build+run
+        from concurrent.futures import ThreadPoolExecutor
+        cap = int(os.environ.get("VERIF_MAX_REPLAYS", "12"))
+        if len(to_replay) > cap:
+            for h, row in to_replay[cap:]:
+                inconclusive.append(f"{short(h)}: {row['new_keys']} failed but replay budget ({cap}) exhausted; not replayed")
+            to_replay = to_replay[:cap]
+        with ThreadPoolExecutor(max_workers=6) as ex:
+            futs = [ex.submit(extract_ce, pid, spec, mdir, gmap[row["group"]], h, row, tier_cfgs) for h, row in to_replay]
+            recs = [f.result() for f in futs]
+        native_stage(pid, mdir, recs, gmap, tier_cfgs, skip_native=a.no_replay)
+        for rec in recs:
+            finish_replay_record(pid, rec)
             replay_records.append(rec)
             if rec["reproduced"]:
                 violations.append(rec)
             else:
-                inconclusive.append(f"{short(h)}: counterexample for {rec['keys']} did not reproduce natively ({rec.get('why','')})")
+                inconclusive.append(f"{short(rec['harness'])}: counterexample for {rec['keys']} did not reproduce natively ({rec.get('why','')})")
     # report
     seen = set()
     for h, k, kf in known_hits:
@@ -164,60 +174,76 @@ def classify(pid, h, info, known):
     return row
 
 
-def replay_failure(pid, spec, mdir, g, h, row, tier_cfgs, skip_native=False):
+def extract_ce(pid, spec, mdir, g, h, row, tier_cfgs):
     keys = row["new_keys"]
-    rec = {"property": pid, "harness": h, "keys": keys, "reproduced": False, "path": None, "mode": None}
-    mode = spec.get("replay", {}).get(short(h)) or spec.get("replay", {}).get("*", "playback")
+    rec = {"property": pid, "harness": h, "keys": keys, "reproduced": False, "path": None, "mode": "playback", "group_name": g.name}
     for pat, m in spec.get("replay", {}).items():
-        if pat not in ("*",) and re.fullmatch(pat.replace("*", ".*"), short(h)):
-            mode = m
-    rec["mode"] = mode
-    log(f"[{pid}] counterexample extraction for {short(h)} keys={keys} (replay mode {mode})")
+        if pat == "*" or re.fullmatch(pat.replace("*", ".*"), short(h)):
+            rec["mode"] = m
+            if pat != "*":
+                break
+    log(f"[{pid}] counterexample extraction for {short(h)} keys={keys} (replay mode {rec['mode']})")
     tests, out = R.kani_counterexample(mdir, g, h, tier_cfgs)
-    # keep only the tests for new keys
     chosen = []
     for chk, name, src in tests:
         k = R.fail_key({"description": chk, "category": "assertion", "function": ""})
-        if any(k == nk or (nk.startswith("assertion:") is False and nk.split("@")[0].split(":", 1)[-1] in chk) or chk in nk for nk in keys):
-            chosen.append((chk, name, src))
+        for nk in keys:
+            if k == nk or (not re.match(r"^C\d\d", nk) and nk.split("@")[0].split(":", 1)[-1] in chk):
+                chosen.append((chk, name, src))
+                break
     if not chosen:
         chosen = tests
     rec["tests"] = [{"check": c, "name": n, "source": s} for c, n, s in chosen]
-    rec["file"] = None
-    # locate file of harness module
-    rel = locate_harness_file(mdir, h)
-    rec["file"] = rel
+    rec["file"] = locate_harness_file(mdir, h)
     rec["module"] = module_of(h)
     rec["group"] = {"cfgs": g.cfgs + list(tier_cfgs), "features": g.features}
-    if mode == "solver-only" or skip_native:
-        rec["reproduced"] = True
-        rec["native"] = "not run: harness depends on solver-side stubs (see DESIGN.md 2.2); the counterexample is the solver's"
-    elif not chosen:
-        rec["why"] = "Kani produced no concrete playback test"
-    else:
-        ok = R.insert_tests(mdir, rel, rec["module"], "\n".join(s for _, _, s in chosen)) if rel else False
+    return rec
+
+
+def native_stage(pid, mdir, recs, gmap, tier_cfgs, skip_native=False):
+    """Insert all generated tests, build once per group, run natively."""
+    by_group = {}
+    for rec in recs:
+        if rec["mode"] == "solver-only" or skip_native:
+            rec["reproduced"] = True
+            rec["native"] = "not run natively: the harness depends on solver-side stubs (DESIGN.md 2.2); the counterexample is the solver's"
+            continue
+        if not rec["tests"]:
+            rec["why"] = "Kani produced no concrete playback test"
+            continue
+        ok = R.insert_tests(mdir, rec["file"], rec["module"], "\n".join(t["source"] for t in rec["tests"])) if rec["file"] else False
         if not ok:
             rec["why"] = "could not insert playback test"
-        else:
-            names = [n for _, n, _ in chosen]
-            stat, nout = R.native_playback(mdir, g, names, tier_cfgs)
+            continue
+        by_group.setdefault(rec["group_name"], []).append(rec)
+    for gname, rs in by_group.items():
+        g = gmap[gname]
+        names = [t["name"] for r in rs for t in r["tests"]]
+        log(f"[{pid}] native replay of {len(names)} counterexample(s) (group {gname})")
+        # one test process per record so that an abort (extern \"sysv64\" panic) is attributed correctly
+        for r in rs:
+            tn = [t["name"] for t in r["tests"]]
+            stat, nout = R.native_playback(mdir, g, tn, tier_cfgs)
             fails = re.findall(r"VERIF-FAIL (\S+)", nout)
             panics = re.findall(r"panicked at ([^\n]*\n[^\n]*)", nout)
-            rec["native"] = {"tests": stat, "verif_fail_tags": sorted(set(fails)), "panics": panics[:6]}
-            want_tags = [k for k in keys if re.match(r"^C\d\d", k)]
+            aborted = "SIGABRT" in nout or "panic in a function that cannot unwind" in nout or "process didn't exit successfully" in nout
+            r["native"] = {"tests": stat, "verif_fail_tags": sorted(set(fails)), "panics": panics[:6], "aborted": aborted}
+            want_tags = [k for k in r["keys"] if re.match(r"^C\d\d", k)]
             hit = [t for t in want_tags if t in fails]
-            real_panic = [k for k in keys if not re.match(r"^C\d\d", k)]
-            if hit or (real_panic and any(s == "FAILED" for s in stat.values())):
-                rec["reproduced"] = True
+            real_panic = [k for k in r["keys"] if not re.match(r"^C\d\d", k)]
+            if hit or (real_panic and (panics or aborted or any(s == "FAILED" for s in stat.values()))):
+                r["reproduced"] = True
             else:
-                rec["why"] = "native run of the counterexample did not hit the failing obligation"
-                rec["native"]["tail"] = nout[-1500:]
-    hsh = hashlib.sha256((h + "|".join(keys)).encode()).hexdigest()[:8]
-    path = os.path.join(VERIF, "replays", f"{pid}-{short(h)}-{hsh}.json")
+                r["why"] = "native run of the counterexample did not hit the failing obligation"
+                r["native"]["tail"] = nout[-1500:]
+
+
+def finish_replay_record(pid, rec):
+    hsh = hashlib.sha256((rec["harness"] + "|".join(rec["keys"])).encode()).hexdigest()[:8]
+    path = os.path.join(VERIF, "replays", f"{pid}-{short(rec['harness'])}-{hsh}.json")
     rec["path"] = path
     rec["repo_tree"] = mirror_mod.sha_tree(mirror_mod.REPO)
-    R.write_json(path, {k: v for k, v in rec.items()})
-    return rec
+    R.write_json(path, rec)
 
 
 def locate_harness_file(mdir, h):
